@@ -18,23 +18,23 @@ from concurrent.futures import ThreadPoolExecutor
 from .common import BUILD, REPO, SHIMS, sha
 from . import build, run
 
-# prelude a header can include so that the same text is valid for interrogate and for g++
+# prelude a header can include so that the same text is valid for interrogate and for g++.
+# (global declarations are published between __begin_publish / __end_publish; a macro END_PUBLISH is
+# not offered here because interrogate exports a macro defined as __end_publish as a manifest)
 PUBLISH_PRELUDE = """#pragma once
 #ifdef CPPPARSER
 #define PUBLISHED __published
 #define MAKE_PROPERTY(...) __make_property(__VA_ARGS__)
 #define MAKE_SEQ(...) __make_seq(__VA_ARGS__)
 #define MAKE_SEQ_PROPERTY(...) __make_seq_property(__VA_ARGS__)
-#define BEGIN_PUBLISH __begin_publish
-#define END_PUBLISH __end_publish
 #define EXTENSION(x) __extension x
 #else
+#define __begin_publish
+#define __end_publish
 #define PUBLISHED public
 #define MAKE_PROPERTY(...)
 #define MAKE_SEQ(...)
 #define MAKE_SEQ_PROPERTY(...)
-#define BEGIN_PUBLISH
-#define END_PUBLISH
 #define EXTENSION(x)
 #endif
 """
